@@ -271,16 +271,38 @@ func (R *Run) checkCursor(rule string, only func(name string) bool) int {
 				if f, _ := fieldOf(fa); f != cursorField {
 					return
 				}
-				for _, r := range *u.Referrers() {
+				// the loaded value and its conversions (a cursor of a named integer type)
+				vals := map[ssa.Value]bool{u: true}
+				var refs []ssa.Instruction
+				for work := []ssa.Value{u}; len(work) > 0; {
+					v := work[0]
+					work = work[1:]
+					if v.Referrers() == nil {
+						continue
+					}
+					for _, r := range *v.Referrers() {
+						switch c := r.(type) {
+						case *ssa.Convert:
+							vals[c] = true
+							work = append(work, c)
+						case *ssa.ChangeType:
+							vals[c] = true
+							work = append(work, c)
+						default:
+							refs = append(refs, r)
+						}
+					}
+				}
+				for _, r := range refs {
 					switch x := r.(type) {
 					case *ssa.DebugRef:
 					case *ssa.Slice:
-						if x.Low != ssa.Value(u) {
+						if !vals[x.Low] {
 							problems = append(problems, "the cursor is used as something else than the lower bound of the copied slice at "+P.ipos(x))
 						}
 					case *ssa.BinOp:
 						other := x.Y
-						if other == ssa.Value(u) {
+						if vals[other] {
 							other = x.X
 						}
 						okUse := false
